@@ -36,8 +36,11 @@ Definition n_collection : name := (DAV, "collection").
 Definition n_principal : name := (DAV, "principal").
 
 (** What C11 and C12 see of a property value: an href, the list of resource
-    types, a value that serialises to an empty element, anything else. *)
-Inductive pval := VHref (p : string) | VRes (types : list name) | VEmpty | VOpaque.
+    types, a value that serialises to an empty element, anything else; [VText]
+    is "anything else" whose text the model happens to know (the file server's
+    length, entity tag and content type: compared with the file-server stack's
+    model in PropFindAgree.v; on the wire it is as opaque as [VOpaque]). *)
+Inductive pval := VHref (p : string) | VRes (types : list name) | VEmpty | VOpaque | VText (s : string).
 
 (** A Go [PropFindFunc]: yields a value or fails with an HTTP status
     ([HTTPErrorFromError(err).Code]). *)
@@ -225,7 +228,12 @@ Definition hier_propfind (s : server) (hprefix : string) (b : backend) (path : s
 (** The served directory: files (with or without a MIME type known for their
     extension — mime.TypeByExtension is an input) and directories; children in
     the lexical order filepath.Walk visits them in. *)
-Inductive node := File (has_mime : bool) | Dir (children : list (string * node)).
+Record fmeta := { f_clen : string;    (* getcontentlength, as text *)
+                  f_etag : string;    (* getetag, unquoted *)
+                  f_ctype : string }. (* getcontenttype; "" when no type is known for the extension *)
+Definition has_mime (m : fmeta) : bool := negb (String.eqb (f_ctype m) "").
+
+Inductive node := File (meta : fmeta) | Dir (children : list (string * node)).
 
 Definition is_dir (n : node) : bool := match n with Dir _ => true | File _ => false end.
 
@@ -274,14 +282,22 @@ Definition ext_path (segs : list string) : string :=
 Definition file_props (n : node) : props :=
   match n with
   | Dir _ => [(n_resourcetype, Val (VRes [n_collection])); (n_getlastmodified, Val VOpaque)]
-  | File mime =>
-    [(n_resourcetype, Val (VRes [])); (n_getlastmodified, Val VOpaque); (n_getcontentlength, Val VOpaque)]
-    ++ opt_prop mime n_getcontenttype ++ [(n_getetag, Val VOpaque)]
+  | File m =>
+    [(n_resourcetype, Val (VRes [])); (n_getlastmodified, Val VOpaque); (n_getcontentlength, Val (VText (f_clen m)))]
+    ++ (if has_mime m then [(n_getcontenttype, Val (VText (f_ctype m)))] else [])
+    ++ [(n_getetag, Val (VText (f_etag m)))]
   end%list.
 
 (** Stat + ReadDir as backend.PropFind uses them: the answered (href, node) list. *)
+Fixpoint has_nul (s : string) : bool :=
+  match s with
+  | EmptyString => false
+  | String c r => Ascii.eqb c "000"%char || has_nul r
+  end.
+
 Definition dav_scope (t : node) (path : string) (d : depth) : res (list (string * node)) :=
-  if negb (has_prefix (clean path) "/") then Err 400        (* localPath: "expected absolute path" *)
+  if has_nul path then Err 400                              (* localPath: "invalid character in path" *)
+  else if negb (has_prefix (clean path) "/") then Err 400   (* localPath: "expected absolute path" *)
   else match get t (rid path) with
        | None => Err 404
        | Some n =>
@@ -343,7 +359,7 @@ Definition report_name (p : props) (n : name) : fentry :=
 (** What is compared of values: [id] for the model, [wire] for an observation
     (an empty element on the wire is either no value or an empty one). *)
 Definition wire (v : option pval) : option pval :=
-  match v with Some VEmpty => None | Some (VRes []) => None | _ => v end.
+  match v with Some VEmpty => None | Some (VRes []) => None | Some (VText _) => Some VOpaque | _ => v end.
 Definition proj (f : option pval -> option pval) (e : fentry) : fentry := (fst e, f (snd e)).
 
 (** [accounted_gen f pf p r]: the response [r] accounts for request [pf] on a
@@ -482,6 +498,9 @@ Definition hier_ok (h : hier) : bool :=
   && segs_ok (map hc_name (h_colls h)) && nodup_b (map hc_name (h_colls h))
   && forallb (fun c => segs_ok (map ho_name (hc_objs c)) && nodup_b (map ho_name (hc_objs c))) (h_colls h).
 
+(** no NUL byte in a target (a file system has no such name; the server refuses the path) *)
+Definition nul_free (l : list string) : bool := forallb (fun s => negb (has_nul s)) l.
+
 Fixpoint tree_ok (n : node) : bool :=
   match n with
   | File _ => true
@@ -506,6 +525,7 @@ Definition pval_eqb (a b : pval) : bool :=
   | VRes x, VRes y => names_eqb x y
   | VEmpty, VEmpty => true
   | VOpaque, VOpaque => true
+  | VText x, VText y => String.eqb x y
   | _, _ => false
   end.
 
